@@ -134,3 +134,28 @@ Section Fns.
     f_equal. apply tdup_false_NoDup in D. rewrite rows_bridge; [reflexivity|exact D].
   Qed.
 End Fns.
+
+(* ---- why `vals[0]` / `i[0]` (py_item 0, total in the vocabulary) cannot raise IndexError: every row
+   the loop over the lines stores is non-empty, because `str.split` never returns an empty list ---- *)
+Definition row_ok (r : list text) : Prop := r <> [].
+Lemma line_rows_nonempty sq ss h md c line h' md' c' :
+  Forall row_ok md -> from_file_line_gen sq ss (h, md, c) line = (h', md', c') -> Forall row_ok md'.
+Proof.
+  intros Hmd. unfold from_file_line_gen. cbv zeta.
+  assert (Hrow : forall pad, row_ok (map (strip_f_gen sq ss) (py_split 9 (strip_f_gen sq ss line)) ++ pad)).
+  { intros pad E. apply app_eq_nil in E. destruct E as [E _]. apply map_eq_nil in E.
+    exact (split_when_ne _ _ E). }
+  repeat match goal with
+  | |- context [if ?b then _ else _] => destruct b
+  end; intros E; inversion E; subst; try exact Hmd;
+  apply Forall_app; (split; [exact Hmd|]); constructor; try constructor;
+  [apply Hrow | rewrite <- (app_nil_r (map _ _)); apply Hrow].
+Qed.
+Theorem from_file_rows_nonempty sq ss lines : forall h md c h' md' c',
+  Forall row_ok md -> fold_left (from_file_line_gen sq ss) lines (h, md, c) = (h', md', c') -> Forall row_ok md'.
+Proof.
+  induction lines as [|l lines IH]; intros h md c h' md' c' Hmd E; cbn [fold_left] in E.
+  - inversion E; subst; exact Hmd.
+  - destruct (from_file_line_gen sq ss (h, md, c) l) as [[h1 md1] c1] eqn:E1.
+    eapply IH; [|exact E]. eapply line_rows_nonempty; [exact Hmd|exact E1].
+Qed.
